@@ -346,7 +346,8 @@ func Rotate(seq Sequence, n int) Sequence {
 
 	var ff FeatureSlice
 	for _, f := range seq.Features() {
-		f.Loc = f.Loc.Expand(0, n).Normalize(Len(seq))
+		// Shift from before the first residue: a site at the origin (0^1) moves too.
+		f.Loc = f.Loc.Expand(-1, n).Normalize(Len(seq))
 		ff = ff.Insert(f)
 	}
 
